@@ -114,7 +114,7 @@ PROPS = {
         assumptions=['monotone clock: every write stamps a later mtime than all earlier ones (real time.Now on a MapFS)'],
     ),
     "C11": dict(
-        modules=['Gopki.Props.C11', 'Gopki.Model.Cli', 'Gopki.Abs.Bridge', 'Gopki.Abs.PlanRefine'], theorems=['C11.C11_needsUpdate_iff', 'C11.C11_plan_eq_spec', 'C11.foldl_planStep_spec', 'C11.C11_no_flags_no_regen', 'C11.C11_flags_table', 'C11.C11_strategy_bits', 'Cli.default_strategy', 'Cli.single_flags', 'Bridge.needsUpdate_default', 'Bridge.needsUpdate_default_iff_localReason', 'Conv.run_planned', 'Bridge.planSpec_refines', 'Bridge.plan_refinement', 'Conv.run_converges', 'Forest.bfs_main'], ops=['hist', 'pki', 'cli'],
+        modules=['Gopki.Props.C11', 'Gopki.Model.Cli', 'Gopki.Abs.Bridge', 'Gopki.Abs.PlanRefine'], theorems=['C11.C11_needsUpdate_iff', 'C11.C11_plan_eq_spec', 'C11.foldl_planStep_spec', 'C11.C11_no_flags_no_regen', 'C11.C11_flags_table', 'C11.C11_strategy_bits', 'Cli.default_strategy', 'Cli.single_flags', 'Bridge.needsUpdate_default', 'Bridge.needsUpdate_default_iff_localReason', 'Conv.run_planned', 'Bridge.planSpec_refines', 'Bridge.plan_refinement', 'Bridge.tied_of_abs', 'Conv.run_converges', 'Forest.bfs_main'], ops=['hist', 'pki', 'cli'],
         rule="cli: the flags of the real binary select the strategy the model derives from the regenerated flag table (12 spellings: shorthands, combined shorthands, long names, =false), and the artifacts it rewrites are those of the model's plan; "
              "hist: forests of 1-4 entities, a first default run, then 1-5 (thorough 1-9) steps drawn from {edit config, delete/truncate/strip-block/replace artifact, touch config, run with one of 12 flag sets, run with an injected write fault (error / torn prefix / death after write)}, "
              "then a default run (convergence evaluated) and another default run (must be a no-op); every run is replayed on the model from the directory observed before it; non-trivial = at least three runs" + "pki: forests of 1-5 entities (random parent vector, nested directories, yaml/yml/json), every key algorithm except RSA>=2048 in quick, configured/omitted signature algorithms, "
